@@ -76,7 +76,7 @@ def setlin(ctx, tr, what, ntraces, record=True):
     if os.path.abspath(tr) != dst:
         import shutil
         shutil.copy(tr, dst)
-    r = vlib.run_tlc("SetLin.tla", "Trace_SetLin.cfg", ctx.wd, workers=1, timeout=2400, dfs=True)
+    r = vlib.run_tlc("SetLin.tla", "Trace_SetLin.cfg", ctx.wd, workers=1, timeout=2400)  # BFS: the depth-first queue (StateDeque) lost states here
     nev = sum(1 for _ in open(dst))
     ctx.events += nev
     ctx.states += r.distinct
